@@ -1237,11 +1237,15 @@ class UnitDatabase(Singleton):
             self.CheckQuantityType(category_or_quantity_type)
             quantity_type = category_or_quantity_type
 
-        if convert_function is not None:
-            return convert_function(self, quantity_type, from_unit, to_unit, value)
-
         this = self.GetInfo(quantity_type, from_unit, fix_unknown=True)
         other = self.GetInfo(quantity_type, to_unit, fix_unknown=True)
+
+        # same unit under two spellings (a legacy one and the current one): no conversion needed
+        if this is other:
+            return value
+
+        if convert_function is not None:
+            return convert_function(self, quantity_type, from_unit, to_unit, value)
 
         if isinstance(value, (float, int)):
             return other.frombase(this.tobase(value))
